@@ -101,4 +101,7 @@ class RepeatedTimer:
 
     @property
     def _time(self):
+        if self.interval <= 0:
+            # no pause between the runs (the service holds a long poll itself); there is no remainder of 0 to take
+            return 0.0
         return self.interval - ((time.time() - self.start_ts) % self.interval)
